@@ -787,6 +787,21 @@ def dr_census(F):
 				k = (fl, tail, f.rsplit('::', 1)[-1])
 				cnt[k] += 1
 				where.setdefault(k, (n, fu.line_of(b)))
+		# `.await` on a future held in a local (`let _ = fut.await;`): the Result inside Poll::Ready
+		for b, ci in fu.calls():
+			if not norm(ci.get('t') or ci.get('f') or '').endswith('Future::poll'):
+				continue
+			d = ci.get('dest')
+			if not d or len(d) != 1 or not (fu.locals[d[0]].get('ty') or '').startswith('core::task::poll::Poll<core::result::Result<'):
+				continue
+			total[fl] += 1
+			for bi, si, s in fu.stmts():
+				rv = s[2]
+				if rv[0] == 'use' and rv[1][0] in ('m', 'c') and rv[1][1][0] == d[0] and len(rv[1][1]) >= 2 and rv[1][1][1] == '@Ready' and len(s[1]) == 1:
+					if value_consumed(fu, (s[1][0], 'result', False))[0] == 'dropped':
+						k = (fl, tail, '.await')
+						cnt[k] += 1
+						where.setdefault(k, (n, fu.line_of(b)))
 	_DRC[F.dir] = (cnt, where, total)
 	return _DRC[F.dir]
 
@@ -817,7 +832,7 @@ DR_SCOPE = {
 	'C02': ([r'ln/channelmanager\.rs$'], 50),
 	'C03': ([r'ln/outbound_payment\.rs$'], 10),
 	'C07': ([r'chain/channelmonitor\.rs$', r'chain/onchaintx\.rs$', r'chain/package\.rs$'], 10),
-	'C09': ([r'chain/chainmonitor\.rs$', r'ln/channelmanager\.rs$'], 50),
+	'C09': ([r'chain/chainmonitor\.rs$', r'ln/channelmanager\.rs$', r'util/persist\.rs$'], 50),
 	'C15': ([r'ln/peer_handler\.rs$', r'ln/peer_channel_encryptor\.rs$'], 10),
 	'C17': ([r'routing/gossip\.rs$', r'routing/utxo\.rs$'], 10),
 	'C18': ([r'offers/'], 20),
